@@ -25,7 +25,7 @@ def copy(arr):
 
 
 def tobytes(arr):
-    if isinstance(arr, np.ndarray):
+    if isinstance(arr, (np.ndarray, np.generic)):
         return arr.tobytes()
     else:
         return arr.numpy(force=True).tobytes()
